@@ -302,6 +302,24 @@ def Args.nOps {A V : Type} : Args A V → Nat
   | .cons v rest => View.nOps v + Args.nOps rest
 end
 
+mutual
+/-- SPEC of what the extracted composition must consist of: the operations of the view tree in EXECUTION order (post-order:
+    operands first to last, then the node), each with the attribute list its view carries (`view.attributes()`: axis, shape,
+    … and the op of a ufunc WITH its run-time parameters — leaky_relu slope, elu alpha, hardtanh bounds, …) -/
+def View.opsPost {A V : Type} : View A V → List (VFun A V × List A)
+  | .leaf _ => []
+  | .alias _ => []
+  | .lit _ => []
+  | .node f ats args => Args.opsPost args ++ [(f, ats)]
+  | .snode f ats args => Args.opsPost args ++ [(f, ats)]
+def Args.opsPost {A V : Type} : Args A V → List (VFun A V × List A)
+  | .nil => []
+  | .cons v rest => View.opsPost v ++ Args.opsPost rest
+end
+
+/-- `get_function(view)` = `functor[view.attributes()]`: the functor of the view function with the view's attributes bound, no operands -/
+def VFun.bindAttrs {A V : Type} (p : VFun A V × List A) : Fn A V := ⟨p.1.toFunctor, p.2, []⟩
+
 /-! ### compute graph over ct_map / ct_digraph -/
 
 /-- `ct_digraph`: two insertion-ordered `ct_map`s (node → out-edges, node → data) that always have the same keys
